@@ -1369,7 +1369,7 @@ class Epoch(object):
             leap_seconds = kwargs["leap_seconds"]
         else:
             leap_seconds = 0.0
-        if "local" in kwargs:
+        if "local" in kwargs and kwargs["local"]:
             deltasec = Epoch.utc2local()
             if not tt2utc and leap_seconds == 0.0:
                 tt2utc = True
